@@ -645,6 +645,9 @@ func propC14(c *Ctx) {
 		}
 	}
 
+	c.Rule("R14.6", "each segment cache is filled by exactly one fetch routine (headers and full blocks are never served from one another's cache)", 4)
+	checkCachePerRoutine(c, "R14.6")
+
 	// ---- R14.5 ----------------------------------------------------------
 	c.Rule("R14.5", "every declared block field name reaches the planner", 1)
 	flt := w.Fn("dig", "Integration.Filter")
